@@ -117,6 +117,62 @@ def getitem_checks(run, repo, prel):
                     run.check(ok, 'R13.getitem', g, st, 'a selection of a polynomial keeps its coefficients (every result needs set_cs / set_c)')
 
 
+def second_readers(run, repo, prel, tok_phase, rule='R12.reader'):
+    """paulis(): every returned list is either the argument itself, or collects .g / .p of the operators parsed by pauli() (the
+    one reader).  A return that decodes codes by itself is a second reader and is held to the writer's tables: its phase
+    expression, evaluated on the phase tokens the writer emits, must give back the phase (tok_phase: p -> token), and its slot
+    expressions must give (x, z) of the letter codes 0..3."""
+    from ..names import single_def
+    from ..flow import assigned_pairs
+    f = repo.func(prel, 'paulis')
+    n = 0
+    defs = {}
+    for st, ctx in walk(f.node):
+        if isinstance(st, ast.Assign):
+            for t, v in assigned_pairs(st):
+                if isinstance(t, ast.Name) and not isinstance(v, tuple):
+                    defs.setdefault(t.id, []).append((st, v, ctx))
+    for st, ctx in walk(f.node):
+        if not (isinstance(st, ast.Return) and isinstance(st.value, ast.Call) and norm(st.value.func) == 'PauliList'):
+            continue
+        args = st.value.args
+        srcs = []
+        for a in args[:2]:
+            cands = [v for s2, v, c2 in defs.get(a.id, []) if s2.lineno < st.lineno] if isinstance(a, ast.Name) else [a]
+            srcs.append(cands)
+        parsed = all(any(isinstance(x, ast.Attribute) and x.attr in ('g', 'p') for x in ast.walk(v)) for cands in srcs for v in cands) and all(srcs)
+        if parsed:
+            continue
+        # a private decoder: evaluate its phase expression on the writer's phase tokens
+        n += 1
+        ph = [v for v in (srcs[1] if len(srcs) > 1 else []) if not (isinstance(v, ast.Constant) and v.value is None)]
+        if len(ph) != 1:
+            run.undecided(rule, f, st, 'a list is built without pauli(); its phase source is not a single expression')
+            continue
+        bad = None
+        try:
+            for p_, t in sorted(tok_phase.items()):
+                def sub(nd, env, rec, t=t):
+                    base = nd.value
+                    if isinstance(base, ast.Call) and base.args and norm(base.func).split('.')[-1] in ('array', 'asarray', 'tensor'):
+                        base = base.args[0]
+                    if isinstance(base, (ast.List, ast.Tuple)):          # a literal lookup table indexed by the decoded token
+                        return rec(base)[rec(nd.slice)]
+                    if isinstance(base, ast.Name):
+                        return t                                          # the token column of the input
+                    raise Undecidable('subscript ' + norm(nd))
+                got = ev(ph[0], {}, sub=sub)
+                if got != p_:
+                    bad = (t, p_, got)
+                    break
+        except Undecidable as e:
+            run.undecided(rule, f, st, 'second reader in paulis(): %s' % e)
+            continue
+        run.check(bad is None, rule, f, ph[0], 'paulis() decodes phase tokens by itself here (not through pauli()): the token %s written for phase %s '
+                  'is read back as %s' % (bad if bad else ('', '', '')))
+    return n
+
+
 def check(run):
     repo = run.repo
     per_pkg = {}
@@ -146,6 +202,7 @@ def check(run):
         rd = repo.func(prel, 'pauli')
         tab = check_reader(run, rd, (pref, letters, tl, tp))
         check_alloc(run, rd)
+        second_readers(run, repo, prel, {p_: t_ for p_, t_ in tp.items() if isinstance(p_, int)} or {0: 4, 2: 5, 1: 6, 3: 7})
         per_pkg[pkg] = (pref, letters, tl, {k: v for k, v in tp.items()}, tab)
         # polynomial / monomial printing goes through coefficient * i^p
         # scalar multiples and negation
